@@ -25,7 +25,7 @@ fn any_date(ymin: i32, ymax: i32) -> (i32, u32, u32) {
     (y, m, d)
 }
 
-// @vt prop=C41 tier=quick bound="DEFAULT-date converter days_from_ymd: every valid date in years 1..=9999" outside="years outside 1..=9999; the text layer (split/parse)" timeout=900
+// @vt prop=C41 tier=quick bound="DEFAULT-date converter days_from_ymd: every valid date in years 1..=9999" outside="years outside 1..=9999; the text layer (split/parse)" timeout=1800
 vt_proof! { unwind = 2; fn c41_default_converter_all_dates() {
     let (y, m, d) = any_date(1, 9999);
     kani::cover!(y == 2100 && m == 2 && d == 28, "w:century_non_leap_february");
@@ -33,14 +33,14 @@ vt_proof! { unwind = 2; fn c41_default_converter_all_dates() {
     assert!(days_from_ymd(y, m, d) as i64 == ref_days(y as i64, m as i64, d as i64), "role=default_converter_matches_gregorian");
 }}
 
-// @vt prop=C41,C20 tier=quick bound="date-function converter date_to_days (offset 719163): every valid date in years 1..=9999" outside="years outside 1..=9999" timeout=900
+// @vt prop=C41,C20 tier=quick bound="date-function converter date_to_days (offset 719163): every valid date in years 1..=9999" outside="years outside 1..=9999" timeout=1800
 vt_proof! { unwind = 2; fn c41_function_converter_all_dates() {
     let (y, m, d) = any_date(1, 9999);
     kani::cover!(y == 2000 && m == 2 && d == 29, "w:leap_day_2000");
     assert!(dt::date_to_days(y as i64, m, d) - 719163 == ref_days(y as i64, m as i64, d as i64), "role=function_converter_matches_gregorian");
 }}
 
-// @vt prop=C41 tier=quick bound="literal converter date_to_days_since_epoch (year loop): every valid date in years 1900..=2100" outside="years outside 1900..=2100 in the quick tier (thorough: 1..=9999)" timeout=900
+// @vt prop=C41 tier=quick bound="literal converter date_to_days_since_epoch (year loop): every valid date in years 1900..=2100" outside="years outside 1900..=2100 in the quick tier (thorough: 1..=9999)" timeout=1800
 vt_proof! { unwind = 135; fn c41_literal_converter_1900_2100() {
     let (y, m, d) = any_date(1900, 2100);
     kani::cover!(y == 1900 && m == 3 && d == 1, "w:after_non_leap_february_1900");
@@ -55,7 +55,7 @@ vt_proof! { unwind = 8035; fn c41_literal_converter_all_dates() {
     assert!(lit::date_to_days_since_epoch(y, m, d) as i64 == ref_days(y as i64, m as i64, d as i64), "role=literal_converter_matches_gregorian");
 }}
 
-// @vt prop=C41,C20 tier=quick bound="days_to_date(date_to_days(y,m,d)) == (y,m,d): every valid date in years 1600..=2400" outside="years outside 1600..=2400 in the quick tier (thorough: 1..=9999)" timeout=1200
+// @vt prop=C41,C20 tier=quick bound="days_to_date(date_to_days(y,m,d)) == (y,m,d): every valid date in years 1600..=2400" outside="years outside 1600..=2400 in the quick tier (thorough: 1..=9999)" timeout=1800
 vt_proof! { unwind = 2; fn c41_inverse_1600_2400() {
     let (y, m, d) = any_date(1600, 2400);
     let n = dt::date_to_days(y as i64, m, d);
@@ -71,7 +71,7 @@ vt_proof! { unwind = 2; fn c41_inverse_all_dates() {
     kani::cover!(y == 9999 && m == 12 && d == 31, "w:last_day");
 }}
 
-// @vt prop=C41 tier=quick bound="validity predicates: is_leap_year / days_in_month of the literal parser (all i32 years, all u32 months) and of the date functions (all years 1..=9999; months 1..=12)" outside="date-function days_in_month for months outside 1..=12 (callers validate the month first)" timeout=600
+// @vt prop=C41 tier=quick bound="validity predicates: is_leap_year / days_in_month of the literal parser (all i32 years, all u32 months) and of the date functions (all years 1..=9999; months 1..=12)" outside="date-function days_in_month for months outside 1..=12 (callers validate the month first)" timeout=1800
 vt_proof! { unwind = 2; fn c41_validity_predicates() {
     let y: i32 = kani::any(); let m: u32 = kani::any();
     assert!(lit::is_leap_year(y) == ref_leap(y as i64), "role=literal_leap_year_rule");
@@ -83,7 +83,7 @@ vt_proof! { unwind = 2; fn c41_validity_predicates() {
     kani::cover!(m == 13, "w:invalid_month");
 }}
 
-// @vt prop=C20,C41 tier=quick bound="day_of_year and day_of_week: every valid date in years 1583..=2400 (weekday reference: day number mod 7, 1970-01-01 = Thursday)" outside="years outside 1583..=2400 in the quick tier" timeout=1200
+// @vt prop=C20,C41 tier=quick bound="day_of_year and day_of_week: every valid date in years 1583..=2400 (weekday reference: day number mod 7, 1970-01-01 = Thursday)" outside="years outside 1583..=2400 in the quick tier" timeout=1800
 vt_proof! { unwind = 2; fn c20_day_of_week_and_year() {
     let (y, m, d) = any_date(1583, 2400);
     let n = ref_days(y as i64, m as i64, d as i64);
